@@ -190,7 +190,12 @@ var scripts = []map[string][]string{
 	// that in the same chunk, and a not-contains text that far back
 	{"go": {"alpha? " + filler + " "}, "1": {"beta? "}, "4": {"beta? "}, "2": {"done#"}, "3": {"done#"}},
 	{"go": {"alpha? " + filler + " beta? "}, "1": {"done#"}, "2": {"done#"}, "3": {"done#"}},
+	{"go": {"alpha? "}, "1": {"some banner text, then beta? "}, "4": {"some banner text, then beta? "}, "2": {"a longer closing line and then done#"}, "3": {"a longer closing line and then done#"}},
+	{"go": {"alpha? "}, "1": {"beta? followed by a long tail of text"}, "2": {"done# and more text after it, longer than before"}, "3": {"done# and more text after it, longer than before"}},
 }
+
+// (scripts 8 and 9: after a reset the next chunk is longer than everything accumulated before it, with the next
+// trigger at its end or at its very start -- whatever a callback remembered about the old output must be gone)
 
 const filler = "0123456789 0123456789 0123456789 0123456789 0123456789 0123456789 0123456789"
 
@@ -289,6 +294,11 @@ func dlgScenario(list []int, si int, b sched.Bounds) sched.Scenario {
 			var t0, t1 time.Duration
 			e.Go("client", func() {
 				gopts := cm.BaseOpts(tr, cm.Ms, time.Second, 0)
+				if si >= 8 {
+					// no read delay: the read loop is already waiting in the transport when the callback writes, so
+					// the answer can be queued before the callback loop polls again
+					gopts = cm.BaseOpts(tr, 0, time.Second, 0)
+				}
 				if si >= 6 {
 					gopts = append(gopts, options.WithPromptSearchDepth(48))
 				}
@@ -441,6 +451,10 @@ func scenarios(tier string) []sched.Scenario {
 			b := sched.Bounds{Env: 1, Pre: 1, Total: 1}
 			if tier == "thorough" {
 				b = sched.Bounds{Env: 2, Pre: 2, Total: 2}
+			} else if si >= 8 && len(l) <= 2 {
+				// a delivery plus a switch to the reader: the post-reset chunk is queued before the callback loop
+				// polls again (no empty read in between)
+				b = sched.Bounds{Env: 1, Pre: 1, Total: 2}
 			}
 			out = append(out, dlgScenario(l, si, b))
 		}
@@ -453,7 +467,7 @@ func TestCheck(t *testing.T) {
 		ID:    "C18",
 		Level: "model_checking",
 		Rule: "predicate leg: contains in {none,ab,AB} x not-contains in {none,x,X} x regex in {nil, a.b, (?i)A.B} x case-insensitive on/off x every buffer over {a,b,A,B,x,X,.} up to length 5 (6 thorough), each observed through a real SendWithCallbacks session over a one-chunk device; " +
-			"dialogue leg: every ordered list of 1..3 distinct callbacks from 8 kinds (contains, not-contains, regex+complete, case-sensitive, once, no-reset+once, next-timeout) x 8 causal device scripts (two with output longer than the lowered prompt search depth) x every execution within the deviation bound (chunk cuts/holds, reader-vs-caller switches); oracle: reference implementation of the property run over the chunk sequence the driver actually consumed; distinct = distinct (cell, schedule, observation)",
+			"dialogue leg: every ordered list of 1..3 distinct callbacks from 8 kinds (contains, not-contains, regex+complete, case-sensitive, once, no-reset+once, next-timeout) x 10 causal device scripts (two with output longer than the lowered prompt search depth, two whose post-reset chunks are longer than everything accumulated before) x every execution within the deviation bound (chunk cuts/holds, reader-vs-caller switches); oracle: reference implementation of the property run over the chunk sequence the driver actually consumed; distinct = distinct (cell, schedule, observation)",
 		Assumptions: []string{"regexes are lower-case or carry their own (?i) flag (the property's own restriction)", "callback lists that would re-fire for ever (no reset, no once) are outside the family"},
 		Scenarios:   scenarios,
 		Budget:      map[string]time.Duration{"quick": 5 * time.Minute, "thorough": 40 * time.Minute},
